@@ -26,12 +26,13 @@ type VerifBlobDesc struct {
 	Entries    blob.Ref
 	Members    []blob.Ref
 	MergeSets  []blob.Ref
+	FileName   string
 }
 
 func VerifNewBlob(br blob.Ref, d VerifBlobDesc) *Blob {
 	ss := &superset{
 		Type: CamliType(d.Type), ClaimType: ClaimType(d.ClaimType), AuthType: d.AuthType, Target: d.Target, Transitive: d.Transitive,
-		Expires: types.Time3339(d.Expires), Parts: d.Parts, Entries: d.Entries, Members: d.Members, MergeSets: d.MergeSets,
+		Expires: types.Time3339(d.Expires), Parts: d.Parts, Entries: d.Entries, Members: d.Members, MergeSets: d.MergeSets, FileName: d.FileName,
 	}
 	ss.BlobRef = br
 	if d.Signed {
@@ -72,3 +73,5 @@ func VerifBlobFromReader(br blob.Ref, r io.Reader) (*Blob, error) {
 	ss.BlobRef = br
 	return &Blob{br: br, str: "{}", ss: ss}, nil
 }
+
+func (b *Blob) VerifParts() []*BytesPart { return b.ss.Parts }
